@@ -286,4 +286,5 @@ def run(prog: Program, res: Result) -> None:
         calls = [c for c in ast.walk(fi.node) if id(c) not in inside_helper and isinstance(c, ast.Call) and isinstance(c.func, ast.Name) and c.func.id in {h.name for h in helpers}]
         n_r5 += len(calls)
         res.ok("C03.R5", f"{fi.file}:{fi.node.lineno} {fi.qualname}", f"{fi.qualname}: {len(calls)} element reads through {[h.name for h in helpers]}", "no direct element read outside the helper (findings listed separately if any)")
-    res.floor("C03.R5", "element reads in async getters with an awaiting helper", n_r5, 5)
+    # no floor: when no async getter keeps an awaiting helper (e.g. it delegates to the sync getter) the rule has nothing to say and the twin comparison (R1) decides
+    res.stats["C03.R5.element_reads"] = n_r5
